@@ -335,8 +335,8 @@ def evaluate(node, env, backend):
             if summed is None:
                 summed = every
             for lb in summed:
-                if sum(lb in o.labels for o in ops) < 2:
-                    raise EvalError(f"contracted label {lb} does not connect two operands")
+                if not any(lb in o.labels for o in ops):
+                    raise EvalError(f"contracted label {lb} does not occur on any operand")
             out = tuple(lb for lb in every if lb not in summed)
             shape, data = _sum_product([(o.shape, o.data) for o in ops], [o.labels for o in ops], out)
             return data[()] if not out else Arr(shape, data, out)
